@@ -453,6 +453,109 @@ def gen_ports_script(rng, nsteps=None):
     return {"cfg": cfg, "steps": steps, "flavour": "ports-random"}
 
 
+def gen_accept_wrap_script(rng):
+    """Several streams accepted from ONE listener whose port lies inside the
+    ephemeral range (they all share the listener's port as local port); the
+    listener and some - not all - of the accepted streams are dropped; then
+    enough ephemeral requests to wrap the cursor over that port; finally the
+    rest is dropped and the port must become assignable again."""
+    size = rng.choice([3, 4, 4, 5, 6])
+    lo = rng.choice([50000, 49152, 65535 - size + 1, 1024])
+    hi = lo + size - 1
+    n = rng.choice([2, 2, 3])
+    srv = rng.randrange(n)
+    clients = [h for h in range(n) if h != srv]
+    cfg = {"kind": "ports", "lo": lo, "hi": hi, "nhosts": n, "v6": rng.random() < 0.3, "seed": rng.randrange(1 << 20)}
+    sid = [1]
+
+    def new():
+        sid[0] += 1
+        return sid[0]
+
+    steps = [{"ctl": [], "hosts": {}}]
+    pre = []
+    used = 0
+    for _ in range(rng.choice([0, 0, 1, 2])):          # shift the cursor before the listener binds
+        if used + 2 < size:
+            pre.append([rng.choice(["udp_bind", "tcp_bind"]), new(), "any", 0])
+            used += 1
+    lsid = new()
+    if rng.random() < 0.6:
+        lport = lo + used
+        pre.append(["tcp_bind", lsid, rng.choice(["any", "any", "lo"]) if False else "any", 0])
+    else:
+        lport = rng.randrange(lo + used, hi + 1)
+        pre.append(["tcp_bind", lsid, "any", lport])
+    steps.append({"ctl": [], "hosts": {str(srv): pre}})
+    k = rng.choice([2, 2, 3])
+    k = min(k, size)
+    conns = []
+    hosts = {}
+    for i in range(k):
+        c = clients[i % len(clients)] if rng.random() < 0.85 or size - used < 3 else srv
+        if c == srv and lo <= lport <= hi and size < 4:
+            c = clients[0]
+        s_ = new()
+        conns.append((c, s_))
+        hosts.setdefault(str(c), []).append(["connect", s_, srv, lport])
+    steps.append({"ctl": [], "hosts": hosts})
+    steps.append({"ctl": [], "hosts": {}})
+    accs = [new() for _ in range(k)]
+    steps.append({"ctl": [], "hosts": {str(srv): [["accept", lsid, a] for a in accs]}})
+    hosts = {}
+    for c, s_ in conns:
+        hosts.setdefault(str(c), []).append(["poll", s_])
+    steps.append({"ctl": [], "hosts": hosts})
+    # drop the listener and j of the k accepted streams, in some order, maybe over two steps
+    j = rng.randrange(1, k)
+    order = accs[:]
+    rng.shuffle(order)
+    gone, kept = order[:j], order[j:]
+    cmds = [["drop", lsid]]
+    for a in gone:
+        if rng.random() < 0.3:
+            cmds.append(["drop_half", a, "r"])
+        cmds.append(["drop", a])
+    rng.shuffle(cmds)
+    fixed = []
+    for cmd in cmds:                       # a drop_half must precede the drop of the same object
+        fixed.append(cmd)
+    halves = [c for c in fixed if c[0] == "drop_half"]
+    fixed = halves + [c for c in fixed if c[0] != "drop_half"]
+    if rng.random() < 0.5:
+        steps.append({"ctl": [], "hosts": {str(srv): fixed}})
+    else:
+        cut = rng.randrange(1, len(fixed) + 1)
+        steps.append({"ctl": [], "hosts": {str(srv): fixed[:cut]}})
+        steps.append({"ctl": [], "hosts": {str(srv): fixed[cut:]}})
+    # wrap the cursor: more ephemeral requests than the range has ports
+    reqs = []
+    mine = []
+    for _ in range(size + rng.choice([0, 1, 2])):
+        r = rng.random()
+        s_ = new()
+        if r < 0.45:
+            reqs.append(["udp_bind", s_, rng.choice(["any", "lo"]), 0])
+        elif r < 0.8:
+            reqs.append(["tcp_bind", s_, "any", 0])
+        else:
+            reqs.append(["connect", s_, "nohost", 9000])
+            continue
+        mine.append(s_)
+        if rng.random() < 0.25 and mine:
+            reqs.append(["drop", mine.pop(rng.randrange(len(mine)))])
+    half = len(reqs) // 2 if rng.random() < 0.5 else len(reqs)
+    steps.append({"ctl": [], "hosts": {str(srv): reqs[:half]}})
+    if reqs[half:]:
+        steps.append({"ctl": [], "hosts": {str(srv): reqs[half:]}})
+    # release everything that is left on the server, then the port is free again
+    steps.append({"ctl": [], "hosts": {str(srv): [["drop", a] for a in kept] + [["drop", m] for m in mine]}})
+    steps.append({"ctl": [], "hosts": {}})
+    steps.append({"ctl": [], "hosts": {str(srv): [["udp_bind", new(), "any", 0] for _ in range(size)]}})
+    steps.append({"ctl": [], "hosts": {}})
+    return {"cfg": cfg, "steps": steps, "flavour": "ports-accept-wrap"}
+
+
 def exhaustive_small_ports():
     """All sequences of length <= 4 over a small alphabet on one host with a
     2-port range (wrap-around, exhaustion and per-protocol conflicts)."""
